@@ -1029,16 +1029,16 @@ def wide_stride_avgpool(o):
                for kind, ins, outs, faf, pad, stride in o.get("src_graph") or [])
 
 
-def classify_failure(o, ans):
-    """stable key of an open known finding (see known_findings.txt), or None. Only the structure of the source network
-    is consulted; the verdict itself is Lean's."""
+def _classify_candidate(o, ans, skip):
+    """first key, not in `skip`, whose structural condition the source network meets (see classify_failure)"""
     g = o.get("src_graph") or []
     if "weights_do_not_fit_the_IFM_depth" in ans:
         # AVERAGE_POOL_2D with a width stride >= 4 lowered to a convolution with one input channel
         shapes, strides = o.get("src_shapes") or [], o.get("src_strides") or []
         for n_op, (kind, ins, outs, faf, pad, stride) in enumerate(g):
             if kind == "AVERAGE_POOL_2D" and n_op < len(strides) and strides[n_op][1] >= 4 and ins[0] < len(shapes) and shapes[ins[0]][-1] > 1:
-                return "avgpool-wide-stride-as-conv:weights-have-one-input-channel"
+                if "avgpool-wide-stride-as-conv:weights-have-one-input-channel" not in skip:
+                    return "avgpool-wide-stride-as-conv:weights-have-one-input-channel"
     if ans.endswith("verdict=fail"):
         # Maximum(x, Mul(x, c)) with a constant scalar c taken for LeakyRelu / Relu / Abs on its quantised value
         quant, scalars = o.get("src_quant") or [], o.get("src_scalars") or {}
@@ -1054,17 +1054,21 @@ def classify_failure(o, ans):
                         q, zpc, sc = scalars[c[0]], quant[c[0]][1][0], float(np.float32(quant[c[0]][0][0]))
                         real = (q - zpc) * sc
                         if q == 0 and zpc != 0:
-                            return "mul-max-to-relu:quantised-zero-with-nonzero-zero-point"
+                            if "mul-max-to-relu:quantised-zero-with-nonzero-zero-point" not in skip:
+                                return "mul-max-to-relu:quantised-zero-with-nonzero-zero-point"
                         if q == -1 and real != -1:
-                            return "mul-max-to-abs:quantised-minus-one-not-real-minus-one"
+                            if "mul-max-to-abs:quantised-minus-one-not-real-minus-one" not in skip:
+                                return "mul-max-to-abs:quantised-minus-one-not-real-minus-one"
                         if q >= 0 and real > 1:
-                            return "mul-max-to-lrelu:real-constant-above-one"
+                            if "mul-max-to-lrelu:real-constant-above-one" not in skip:
+                                return "mul-max-to-lrelu:real-constant-above-one"
         # dilation above 2 (sparse kernel built in software) with asymmetric (uint8) weights
         dils = o.get("src_dilations") or []
         for n_op, (kind, ins, outs, faf, pad, stride) in enumerate(g):
             if kind in ("CONV_2D", "DEPTHWISE_CONV_2D") and n_op < len(dils) and dils[n_op] > 2 and len(ins) > 1 and ins[1] < len(quant) \
                     and any(z != 0 for z in quant[ins[1]][1]):
-                return "software-dilation:inserted-taps-zero-instead-of-weight-zero-point"
+                if "software-dilation:inserted-taps-zero-instead-of-weight-zero-point" not in skip:
+                    return "software-dilation:inserted-taps-zero-instead-of-weight-zero-point"
         # SAME-padded CONV_2D whose width gets folded into the channels (first operator with a width stride > 1, or any with a width
         # stride > 3): explicit padding from the unfolded width when the OFM height/width is 1, misaligned filter zero columns otherwise
         shapes, strides = o.get("src_shapes") or [], o.get("src_strides") or []
@@ -1072,7 +1076,8 @@ def classify_failure(o, ans):
             if kind == "CONV_2D" and pad == 0 and n_op < len(strides) and strides[n_op][1] > 1 and (n_op == 0 or strides[n_op][1] > 3):
                 osh = shapes[outs[0]] if outs[0] < len(shapes) else []
                 if len(osh) == 4 and (osh[1] == 1 or osh[2] == 1):
-                    return "strided-conv-fold:unit-output-padding-from-unfolded-width"
+                    if "strided-conv-fold:unit-output-padding-from-unfolded-width" not in skip:
+                        return "strided-conv-fold:unit-output-padding-from-unfolded-width"
                 return "strided-conv-fold:filter-zero-padding-misaligned"
         # PAD with channel (or batch) padding and spatial padding at once: convert_pad_to_concat keeps only the channel part
         pads = o.get("src_pads") or {}
@@ -1080,36 +1085,44 @@ def classify_failure(o, ans):
             if kind == "PAD" and len(ins) > 1 and ins[1] in pads:
                 pv = pads[ins[1]]
                 if (sum(pv[-1]) != 0 or (len(pv) == 4 and sum(pv[0]) != 0)) and sum(pv[-3]) + sum(pv[-2]) != 0:
-                    return "pad-spatial-and-channel-padding:spatial-part-dropped"
+                    if "pad-spatial-and-channel-padding:spatial-part-dropped" not in skip:
+                        return "pad-spatial-and-channel-padding:spatial-part-dropped"
         # int16 LEAKY_RELU with differing scales lowered to Maximum(Mul, Mul): each branch rounds twice
         if o.get("dtype") == "int16" and re.search(r"maxdiff=1 ", ans) and not re.search(r"maxdiff=([2-9]|1\d)", ans):
             for kind, ins, outs, faf, pad, stride in g:
                 if kind == "LEAKY_RELU" and quant and quant[ins[0]][0] != quant[outs[0]][0]:
-                    return "int16-lrelu-mul-max-rounds-each-branch"
+                    if "int16-lrelu-mul-max-rounds-each-branch" not in skip:
+                        return "int16-lrelu-mul-max-rounds-each-branch"
     # (keys of the second C01 worker; the wide-stride average pool and the dilation-above-two zero fill are the same defects as
     # the two keys above, reached when the more specific conditions above do not hold)
     if (ans.endswith("verdict=fail") or ans.startswith("err:out:")) and wide_stride_avgpool(o):
-        return "wide-stride-avgpool-converted-with-one-input-channel-kernel"
+        if "wide-stride-avgpool-converted-with-one-input-channel-kernel" not in skip:
+            return "wide-stride-avgpool-converted-with-one-input-channel-kernel"
     if ans.endswith("verdict=fail") and mean_over_unit_axes(o):
-        return "mean-over-unit-axes-drops-requantisation"
+        if "mean-over-unit-axes-drops-requantisation" not in skip:
+            return "mean-over-unit-axes-drops-requantisation"
     if ans.endswith("verdict=fail") and protected_tensor_reshaped_into_elementwise(o):
-        return "write-protected-tensor-shares-memory-with-reshape-copy"
+        if "write-protected-tensor-shares-memory-with-reshape-copy" not in skip:
+            return "write-protected-tensor-shares-memory-with-reshape-copy"
     if ans.endswith("verdict=fail") and tanh_sigmoid_next_to_relu(o):
         import c01_packing
 
-        return c01_packing.KEY_TWO_ACTIVATIONS
+        if c01_packing.KEY_TWO_ACTIVATIONS not in skip:
+            return c01_packing.KEY_TWO_ACTIVATIONS
     if ans.endswith("verdict=fail") and transpose_then_activation(o):
-        return "transpose-then-packed-activation-loses-transposition"
+        if "transpose-then-packed-activation-loses-transposition" not in skip:
+            return "transpose-then-packed-activation-loses-transposition"
     if ans.endswith("verdict=fail") or ans.startswith("err:out:"):
         k = weights_findings(o)
-        if k is not None:
+        if k is not None and k not in skip:
             return k
     if ans.endswith("verdict=fail") or ans.startswith("err:out:"):
         k = lowered_then_reshaped(o)
-        if k is not None:
+        if k is not None and k + "-then-reshape-lowered-with-reshaped-ofm-shape" not in skip:
             return k + "-then-reshape-lowered-with-reshaped-ofm-shape"
     if ans.endswith("verdict=fail") and ofm_batch_above_one(o):
-        return "ofm-batch-above-one-accepted-on-npu"
+        if "ofm-batch-above-one-accepted-on-npu" not in skip:
+            return "ofm-batch-above-one-accepted-on-npu"
     if not (ans.endswith("verdict=fail") or "read_outside_region" in ans) or o.get("dtype") != "int16":
         return None
     consumers = {}
@@ -1118,8 +1131,34 @@ def classify_failure(o, ans):
             consumers.setdefault(t, []).append(kind)
     for kind, ins, outs, faf, pad, stride in g:
         if kind == "LEAKY_RELU" and any(c in MEMORY_ONLY for c in consumers.get(outs[0], [])):
-            return "int16-lrelu-mul-max-then-reshape-recomputes-shapes"
+            if "int16-lrelu-mul-max-then-reshape-recomputes-shapes" not in skip:
+                return "int16-lrelu-mul-max-then-reshape-recomputes-shapes"
     return None
+
+
+
+_OPEN_KEYS = None
+
+
+def classify_failure(o, ans):
+    """stable key of an open known finding (see known_findings.txt), or None. Only the structure of the source network
+    is consulted; the verdict itself is Lean's. The structural conditions are tried in a fixed order; a key whose finding has
+    been repaired meanwhile (no `finding:` line any more) must not shadow an open finding that the network also matches (a
+    network with a repaired wide-stride AVERAGE_POOL_2D and an open PRELU -> RESHAPE): such keys are skipped. When no open
+    key matches, the first matching key is returned (the violation is then reported under it)."""
+    global _OPEN_KEYS
+    if _OPEN_KEYS is None:
+        _OPEN_KEYS = {k["key"] for k in common.load_known_findings() if k["property"] == "C01"}
+    skip, first = set(), None
+    while True:
+        k = _classify_candidate(o, ans, skip)
+        if k is None:
+            return first
+        if first is None:
+            first = k
+        if k in _OPEN_KEYS:
+            return k
+        skip.add(k)
 
 
 def replay(ck, path):
